@@ -4,4 +4,4 @@ d=$(mktemp -d /tmp/trymut.XXXXXX)
 rsync -a --exclude .git --exclude build /repo/ $d/
 (cd $d && (git apply "$1" 2>/dev/null || patch -s -p1 < "$1")) || { echo "patch failed"; rm -rf $d; exit 2; }
 cd /verif && MOCLO_REPO=$d ./check $2 --tier ${3:-quick} 2>&1 | tail -4
-rm -rf $d
+rm -rf $d; /verif/tools/regen.sh >/dev/null 2>&1
